@@ -454,7 +454,8 @@ cdef class InterCoefficient(Coefficient):
         diff = np.diff(self.np_arrays[0])
         if dt is not None:
             self.dt = dt
-        elif len(diff) >= 1 and np.allclose(diff[0], diff):
+        elif len(diff) >= 1 and np.allclose(diff[0], diff, rtol=1e-8, atol=0):
+            # Uniform grid: the tolerance is relative to the spacing only.
             self.dt = diff[0]
         else:
             self.dt = 0
